@@ -219,7 +219,7 @@ fn arb_valid_text() -> impl Strategy<Value = String> {
 }
 
 fn arb_mutated_text() -> impl Strategy<Value = String> {
-    (arb_valid_text(), 0u8..10, any::<u16>(), prop_oneof![Just('k'), Just('p'), Just('K'), Just('Q'), Just('q'), Just(' '), Just('\u{e9}'), Just('\u{1F600}'), Just('x'), Just('1'), Just('a'), Just('\0'), Just('='), Just('\u{212A}'), Just('\u{17F}'), Just('\u{131}'), Just('\u{161}'), any::<char>()]).prop_map(|(t, kind, pos, c)| {
+    (arb_valid_text(), 0u8..12, any::<u16>(), prop_oneof![Just('k'), Just('p'), Just('K'), Just('Q'), Just('q'), Just(' '), Just('\u{e9}'), Just('\u{1F600}'), Just('x'), Just('1'), Just('a'), Just('\0'), Just('='), Just('\u{212A}'), Just('\u{17F}'), Just('\u{131}'), Just('\u{161}'), any::<char>()]).prop_map(|(t, kind, pos, c)| {
         let chars: Vec<char> = t.chars().collect();
         let i = (pos as usize * (chars.len() + 1)) >> 16;
         let mut out: Vec<char> = chars.clone();
@@ -250,6 +250,18 @@ fn arb_mutated_text() -> impl Strategy<Value = String> {
             }
             7 => out.insert(0, ' '),
             8 => out.extend("xyz".chars()),
+            10 | 11 => {
+                // padded with a plausible character to a total BYTE length just past a power of
+                // 256 (a length that was narrowed to u8 / u16 wraps to a small one)
+                let base = if kind == 10 { 256usize } else if pos % 4 == 0 { 65536 } else { 512 };
+                let target = base + pos as usize % 7;
+                let pad = if c.len_utf8() == 1 && c != '\0' { c } else { 'q' };
+                let mut bytes: usize = out.iter().map(|x| x.len_utf8()).sum();
+                while bytes < target {
+                    out.push(pad);
+                    bytes += 1;
+                }
+            }
             _ => {
                 // promotion letter k / p on a 4-character move
                 if out.len() == 4 {
@@ -263,7 +275,7 @@ fn arb_mutated_text() -> impl Strategy<Value = String> {
 
 pub fn run(ctx: &Ctx) -> Report {
     let mut rep = Report::new(ctx);
-    rep.rule = "Exhaustive: Square::try_offset for all 64 squares x 256 x 256 offset pairs against i32 arithmetic under catch_unwind (this binary's build profile; the check runs in the overflow-checked and the unchecked build); Square::offset panics exactly when try_offset is None for all offsets in -9..=9 squared plus extreme offsets; new/file/rank/flips/relative_to/index functions for all values; format-then-parse for all squares, files, ranks, pieces, colours and all 64x64x5 legally shaped moves; TryFrom<char> over every Unicode scalar value; all strings of length <= 5 over a 16-symbol alphabet (valid letters/digits, upper case, space, digit 0/9, a two-byte character) through all six FromStr impls. Generated: mutations of valid texts (append, truncate, case swap, insert/replace/delete, doubled tail, leading space, 'xyz' tail, k/p promotion letter), arbitrary Unicode strings. Oracle for strings: no panic; Ok(v) implies v.to_string() == s. Non-trivial = accepted string or mutation of a valid text; distinct by string hash / by construction for enumerations.".into();
+    rep.rule = "Exhaustive: Square::try_offset for all 64 squares x 256 x 256 offset pairs against i32 arithmetic under catch_unwind (this binary's build profile; the check runs in the overflow-checked and the unchecked build); Square::offset panics exactly when try_offset is None for all offsets in -9..=9 squared plus extreme offsets; new/file/rank/flips/relative_to/index functions for all values; format-then-parse for all squares, files, ranks, pieces, colours and all 64x64x5 legally shaped moves; TryFrom<char> over every Unicode scalar value; all strings of length <= 5 over a 16-symbol alphabet (valid letters/digits, upper case, space, digit 0/9, a two-byte character) through all six FromStr impls. Generated: mutations of valid texts (append, truncate, case swap, insert/replace/delete, doubled tail, leading space, 'xyz' tail, k/p promotion letter, padding to a byte length of 256..262 / 512..518 / 65536..65542), arbitrary Unicode strings. Oracle for strings: no panic; Ok(v) implies v.to_string() == s. Non-trivial = accepted string or mutation of a valid text; distinct by string hash / by construction for enumerations.".into();
     rep.assumptions = vec!["string space beyond length 5 / the small alphabet is sampled".into()];
     rep.exhaustive = Some(true);
     rep.exhaustive_note = Some("try_offset over its whole domain in this build profile; all enum values; all short strings over the 16-symbol alphabet".into());
